@@ -155,11 +155,24 @@ class Exec:
         raise Unsupported(f"truthiness of {v!r}")
 
     def card(self, v):
-        self.ctx.local_sink = self._cur.pc
+        # one cardinality term per collection object (len(x) evaluated twice is the same number)
+        if isinstance(v, Coll) and getattr(v, "_card_term", None) is not None:
+            # the collection object may be shared by several paths: its defining axioms go to the current path too
+            for ax in v._card_axioms:
+                if not any(ax.eq(h) for h in self._cur.pc[-40:]):
+                    self._cur.pc.append(ax)
+            return v._card_term
+        sink = []
+        self.ctx.local_sink = sink
         try:
-            return self._card(v)
+            r = self._card(v)
         finally:
             self.ctx.local_sink = None
+        self._cur.pc.extend(sink)
+        if isinstance(v, Coll) and v.elems is None:
+            v._card_term = r
+            v._card_axioms = sink
+        return r
 
     def _card(self, v):
         if isinstance(v, Coll):
@@ -383,6 +396,10 @@ class Exec:
             if isinstance(it, (list, StrSet)) or (isinstance(it, Coll) and it.elems is not None) or isinstance(it, range):
                 res.extend(self.unrolled_for(s, o.st, it))
                 continue
+            cl = self.clause_append_loop(s, o.st, it)
+            if cl is not None:
+                res.extend(cl)
+                continue
             if isinstance(it, DictV) and it.items is not None:
                 res.extend(self.unrolled_for(s, o.st, [TupleV([NameV(k), v]) for k, v in it.items]))
                 continue
@@ -414,6 +431,43 @@ class Exec:
                         nxt.append(b)
             outs = nxt
         return [Out("normal", o.st) if o.kind == "broke" else o for o in outs]
+
+    def clause_append_loop(self, s, st, it):
+        """derived summary of `for f in S: <cnf>.append(<clause(f)>)`: every element contributes its clause exactly
+        once and the order of clauses is irrelevant, so afterwards  Sat' == Sat and (forall f in S. clause(f) holds)."""
+        if not (len(s.body) == 1 and isinstance(s.body[0], ast.Expr) and isinstance(s.body[0].value, ast.Call)
+                and isinstance(s.body[0].value.func, ast.Attribute) and s.body[0].value.func.attr == "append" and not s.orelse):
+            return None
+        call = s.body[0].value
+        try:
+            tgt = self.ev(call.func.value, st.fork())
+        except Unsupported:
+            return None
+        if not (isinstance(tgt, ObjRef) and tgt.kind == "CNF"):
+            return None
+        val, cond, scope = self.iter_member(it, st)
+        st1 = st.fork(cond)
+        self.assign(s.target, val, st1)
+        outs = self.expr_outs(call.args[0], st1)
+        if len(outs) != 1 or outs[0].kind != "value":
+            raise Unsupported("clause expression may raise")
+        from pyvc import models
+        t = models.clause_true(self, outs[0].value)
+        x = scope[0]
+        st2 = st.fork()
+        rec = dict(st2.heap[tgt.oid])
+        rec["sat"] = z3.And(rec["sat"], z3.ForAll([x], z3.Implies(cond, t)))
+        cl = outs[0].value
+        if isinstance(cl, list):
+            cl = LitColl.of(cl)
+        men = self.ctx.fresh("mentioned", z3.ArraySort(self.ctx.Obj, B))
+        o_ = self.ctx.fresh("mo", self.ctx.Obj)
+        ax = z3.ForAll([o_], z3.Select(men, o_) == z3.Or(z3.Select(rec["men"], o_), z3.Exists([x], z3.And(cond, z3.Or(cl.pos(o_), cl.neg(o_))))))
+        self.ctx.def_ids.add(ax.get_id())
+        st2.pc.append(ax)
+        rec["men"] = men
+        st2.heap[tgt.oid] = rec
+        return [Out("normal", st2)]
 
     def iter_member(self, it, st):
         """(fresh loop value, membership condition, scope vars) for iterating a symbolic collection."""
@@ -503,6 +557,8 @@ class Exec:
                 g = Graph.fresh(ctx, "hv")
                 st2.heap[ref.oid] = g
                 st2.pc.append(g.wf(ctx))
+            elif isinstance(rec, dict) and rec.get("kind") == "CNF":
+                st2.heap[ref.oid] = {"kind": "CNF", "sat": ctx.fresh("sat_so_far", B), "men": ctx.fresh("mentioned", z3.ArraySort(ctx.Obj, B))}
         return st2
 
     def fresh_like(self, v, nm):
@@ -581,6 +637,7 @@ class Exec:
         objs = [st.env[o] if isinstance(o, str) else o for o in mod_objs]
         self._oblige_inv(st, lab, inv(self, st), "inv-init", s.lineno)
         res = []
+        never_runs = False
         sth = self.havoc(st, mod_locals, objs)
         sth.trace = st.trace + (("while-step", s.lineno),)
         self._assume_inv(sth, inv(self, sth))
@@ -589,6 +646,10 @@ class Exec:
                 res.append(c)
                 continue
             t = self.truthy(c.value)
+            if not self.feasible_strict(c.st, t):
+                never_runs = True
+                continue  # invariant and loop condition are contradictory: the body is never executed
+            never_runs = False
             for o in self.run_block(s.body, c.st.fork(t)):
                 if o.kind in ("normal", "continue"):
                     self._oblige_inv(o.st, lab, inv(self, o.st), "inv-step", s.lineno)
@@ -604,7 +665,7 @@ class Exec:
                 continue  # already reported from the step state
             exit_st = c.st.fork(z3.Not(self.truthy(c.value)))
             for nm in _assigned_names(s):
-                if nm not in mod_locals:
+                if nm not in mod_locals and not never_runs:
                     exit_st.env.pop(nm, None)
             res.append(Out("normal", exit_st))
         return res
@@ -666,6 +727,15 @@ class Exec:
             FEAS_STATS["unknown"] += 1
         return r != z3.unsat
 
+    def feasible_strict(self, st, cond, ms=3000):
+        """like feasible, with a larger budget (used to skip loop bodies that provably never run)"""
+        from pyvc.verify import hard_check
+        sol = z3.Solver()
+        sol.add(self.ctx.axioms)
+        sol.add(st.pc)
+        sol.add(cond)
+        return hard_check(sol, ms) != z3.unsat
+
     def choice(self, st, cond):
         """decide `cond` at this point of the evaluation (forking the exploration when both sides are feasible);
         the decision is added to the path condition."""
@@ -725,6 +795,8 @@ class Exec:
                 return StrSet([x.s for x in items])
             if isinstance(e, ast.Tuple):
                 return TupleV(items)
+            if items and all(isinstance(x, LitV) for x in items):
+                return LitColl.of(items)
             if all(isinstance(x, (NameV, StrLit)) for x in items):
                 return Coll.explicit([self.name_term(x) for x in items])
             return items
@@ -739,6 +811,8 @@ class Exec:
                 t = self.truthy(v)
                 return z3.Not(t)
             if isinstance(e.op, ast.USub):
+                if isinstance(v, LitV):
+                    return LitV(v.obj, not v.pos)
                 return -v
             raise Unsupported("unary op")
         if isinstance(e, ast.BoolOp):
@@ -941,6 +1015,8 @@ class Exec:
             return Opaque("text")
         if isinstance(l, StrLit) and isinstance(r, StrLit) and isinstance(op, ast.Add):
             return StrLit(l.s + r.s)
+        if isinstance(l, LitColl) and isinstance(r, LitColl) and isinstance(op, ast.Add):
+            return l.union(r)
         if isinstance(op, ast.Add):
             if isinstance(l, StrSet) and isinstance(r, StrSet):
                 return StrSet(l.items + r.items)
@@ -1044,6 +1120,29 @@ class Exec:
             if base.items is not None:
                 raise Unsupported("explicit dict lookup")
             return base.val(k)
+        if isinstance(base, Coll) and base.is_list:
+            idx = self.ev(e.slice, st)
+            if base.elems is not None and isinstance(idx, int):
+                self.split_raise(st, z3.BoolVal(not (-len(base.elems) <= idx < len(base.elems))), "IndexError")
+                return NameV(base.elems[idx])
+            if isinstance(idx, int) and idx in (-1, -2) and base.cnt is None:
+                # list(<set>): distinct elements in an arbitrary order; the last two positions are two distinct members
+                if not hasattr(base, "_tail"):
+                    base._tail = (self.ctx.fresh_name("last"), self.ctx.fresh_name("last2"))
+                    a_, b_ = base._tail
+                    x_, y_ = self.ctx.fresh_name("tx"), self.ctx.fresh_name("ty")
+                    two = z3.Exists([x_, y_], z3.And(x_ != y_, base.mem(x_), base.mem(y_)))
+                    base._tail_facts = [z3.Implies(self.truthy(base), base.mem(a_)), z3.Implies(two, z3.And(base.mem(b_), a_ != b_))]
+                for f_ in base._tail_facts:  # (the list object may be shared by several paths)
+                    if not any(f_.eq(h) for h in st.pc[-40:]):
+                        st.pc.append(f_)
+                x_, y_ = self.ctx.fresh_name("tx"), self.ctx.fresh_name("ty")
+                if idx == -1:
+                    self.split_raise(st, z3.Not(self.truthy(base)), "IndexError")
+                    return NameV(base._tail[0])
+                self.split_raise(st, z3.Not(z3.Exists([x_, y_], z3.And(x_ != y_, base.mem(x_), base.mem(y_)))), "IndexError")
+                return NameV(base._tail[1])
+            raise Unsupported("list index")
         if isinstance(base, SplitV):
             idx = self.ev(e.slice, st)
             if idx == 0:
@@ -1112,6 +1211,17 @@ class Exec:
                 z = self.ctx.fresh_name("img")
                 return z3.Exists([z], z3.And(z3.substitute(g, (x, z)), y == z3.substitute(t, (x, z))))
             return Coll(mem, is_list=not isinstance(e, ast.SetComp))
+        if isinstance(elt, LitV):
+            ob = elt.obj
+
+            def mk(sign_ok, g=guard, ob=ob, x=x):
+                def pred(o):
+                    if not sign_ok:
+                        return z3.BoolVal(False)
+                    z = self.ctx.fresh_name("lit")
+                    return z3.Exists([z], z3.And(z3.substitute(g, (x, z)), o == z3.substitute(ob, (x, z))))
+                return pred
+            return LitColl(mk(elt.pos), mk(not elt.pos))
         raise Unsupported("comprehension element")
 
     def dictcomp(self, e, st):
@@ -1164,6 +1274,11 @@ class Exec:
             if nm == "Circuit":
                 from pyvc import models
                 return models.new_circuit(self, st, e)
+            if nm in ("IDPool", "CNF"):
+                from pyvc import models
+                models.used("pysat." + nm)
+                rec = {"kind": nm, "sat": z3.BoolVal(True), "men": z3.K(self.ctx.Obj, z3.BoolVal(False))}
+                return ObjRef(alloc(st, rec, nm.lower()), nm)
             if nm in st.env and isinstance(st.env[nm], FuncV):
                 return self.call_local(st.env[nm], e, st)
             if nm in self.summaries:
@@ -1228,6 +1343,30 @@ class MaybeType:
 
     def __init__(self, has, term):
         self.has, self.term = has, term
+
+
+class LitV:
+    """a DIMACS literal: +-id(obj) of an IDPool; only (object, sign) matters (ids are injective, see models.IDPool)"""
+
+    def __init__(self, obj, pos=True):
+        self.obj, self.pos = obj, pos
+
+
+class LitColl:
+    """a clause under construction: literal sets given by predicates over Obj"""
+
+    def __init__(self, pos, neg, lits=None):
+        self.pos, self.neg = pos, neg  # callables Obj-term -> Bool
+        self.lits = lits               # explicit literal list when the clause was written out literal by literal
+
+    @staticmethod
+    def of(lits):
+        lits = list(lits)
+        return LitColl(lits=lits, pos=lambda o, L=lits: z3.Or([o == l.obj for l in L if l.pos]) if any(l.pos for l in L) else z3.BoolVal(False),
+                       neg=lambda o, L=lits: z3.Or([o == l.obj for l in L if not l.pos]) if any(not l.pos for l in L) else z3.BoolVal(False))
+
+    def union(self, other):
+        return LitColl(lambda o: z3.Or(self.pos(o), other.pos(o)), lambda o: z3.Or(self.neg(o), other.neg(o)))
 
 
 class CharV:
